@@ -34,7 +34,6 @@ EXTRA = ["var rs%d = make_sp(%d); reseat(rs%d, 7); pr(rs%d.get()); pr(by_cref(rs
          "pr(inner_of(Holder(%d)).get())" if False else "pr(Holder(%d).inner.ident() > 0)", "pr(by_cref(Holder(%d).inner))", "pr(by_value(make_holder(%d).inner))",
          "var cc%d = make_holder(%d).inner; pr(cc%d.get())", "auto ca%d = Holder(%d).inner; pr(ca%d.get())", "def gh%d() { return make_holder(%d).inner }; var qh%d = gh%d(); pr(qh%d.get())",
          "var vh%d = [make_holder(%d).inner]; pr(vh%d[0].get())", "var cd%d; cd%d = make_holder(%d).inner; pr(cd%d.get())", "if (make_holder(%d).inner.get() > 0) { pr(1) }",
-         "var &rh%d = make_holder(%d).inner; pr(rh%d.get())",
          "var vv%d = [T(%d), T(%d)]; vv%d.pop_back(); vv%d.clear()", "var lf%d = fun() { 0 }; for (var i = 0; i < 3; ++i) { lf%d = fun[i]() { i } }; pr(lf%d())",
          "var lg%d = fun() { 0 }; for (var i = 0; i < 3; ++i) { var tt = T(%d); lg%d = fun[i, tt]() { i + tt.get() } }; pr(lg%d()); pr(lg%d())", "var s%d = T(%d); s%d = T(%d)", "var c%d = bind(fun(x) { x.get() }, T(%d)); pr(c%d())"]
 
@@ -100,8 +99,11 @@ def run(ctx):
             j = 500 + rng.below(400)
             adds.append(tpl % tuple([j] * k))
         extra.append((t + "try { " + "; ".join(adds) + " } catch(e) { }; " + "; ".join(adds[:1]), fa if rng.chance(1, 2) else rng.below(4)))
+    # the known finding REFERENCE_INTO_TEMPORARY_MEMBER aborts the sanitized harness: probed a few times, not mixed into the bulk
+    for k in range(3):
+        extra.append(("var &rh%d = make_holder(%d).inner; pr(rh%d.get())" % (900 + k, 900 + k, 900 + k), 1000000))
     with ctx.timer("impl"):
-        out2, r2 = C.run_harness_resilient(exe, [], ["%d %s" % (fa, t.encode().hex()) for t, fa in extra], timeout=1800 if not thorough else 7200, stall=120,
+        out2, r2 = C.run_harness_resilient(exe, [], ["%d %s" % (fa, t.encode().hex()) for t, fa in extra], max_restarts=300, timeout=1800 if not thorough else 7200, stall=120,
                                            env={"ASAN_OPTIONS": "detect_leaks=0:allocator_may_return_null=1:abort_on_error=0:detect_stack_use_after_return=1"})
     ctx.cov["harness_restarts"] = r1 + r2
     nt = set()
